@@ -194,7 +194,7 @@ fn tables(sim: &Sim) -> (Vec<(u64, String, Option<[u8; 33]>, Option<Hash>)>, Vec
 fn build(sim: &Sim, a: &Act) -> Option<(Target, Vec<u8>)> {
     let attacker = key(3);
     match a {
-        Act::Replay(t, k) => sim.observed.get(*k as usize).map(|b| (*t, b.clone())),
+        Act::Replay(t, k) => observed_canon(sim).get(*k as usize).map(|b| (*t, b.clone())),
         Act::Challenge(t, j) => {
             let v = if *j == 255 { [0x5a; 32] } else { *sim.chals.get(*j as usize)? };
             Some((*t, Message::HandshakeChallenge(HandshakeChallenge { challenge: v }).serialize()))
@@ -232,16 +232,18 @@ pub fn enabled(sim: &Sim, thorough: bool) -> Vec<Act> {
     }
     let targets = [Target::SonM, Target::SonC, Target::ConS, Target::ConM];
     for t in targets {
-        for k in 0..sim.observed.len().min(if thorough { 8 } else { 6 }) {
+        for k in 0..observed_canon(sim).len().min(if thorough { 8 } else { 6 }) {
             v.push(Act::Replay(t, k as u8));
         }
-        for j in 0..sim.chals.len().min(if thorough { 6 } else { 4 }) {
+        // the most recently observed challenges (the outstanding ones are among them)
+        let nch = sim.chals.len();
+        for j in nch.saturating_sub(if thorough { 6 } else { 4 })..nch {
             v.push(Act::Challenge(t, j as u8));
             v.push(Act::ResponseM(t, j as u8, true));
         }
         v.push(Act::Challenge(t, 255));
     }
-    for j in 0..sim.chals.len().min(4) {
+    for j in sim.chals.len().saturating_sub(4)..sim.chals.len() {
         v.push(Act::ResponseM(Target::SonM, j as u8, false));
     }
     v
@@ -372,7 +374,47 @@ pub fn apply(sim: &mut Sim, a: Act, rep: &mut Report, hist: &[Act]) -> bool {
             }
         }
     }
+    // whoever is found under a key is connected under that key: on both nodes, every address-map
+    // entry that leads to a connected peer leads to one that authenticated with that very key
+    for (nid, node) in [(0u8, &sim.s), (1u8, &sim.c)] {
+        let table = node.peer_table();
+        for (k, idx) in node.address_table() {
+            if let Some(p) = table.iter().find(|p| p.0 == idx) {
+                if p.1 == "Connected" && p.2 != Some(k) {
+                    rep.violate("connected-peer-filed-under-another-key", format!("node {}: the address map leads from key {} to connection {}, which is connected under {:?} ({:?})", nid, crate::seams::key_name(&k), idx, p.2.map(|x| crate::seams::key_name(&x)), hist), ctx.clone());
+                }
+            }
+        }
+    }
     true
+}
+
+/// what a wire message means, with challenges renamed by order of observation
+pub fn msg_kind(sim: &Sim, b: &Vec<u8>) -> String {
+    let name = |h: &Option<Hash>| h.map(|x| sim.chals.iter().position(|c| *c == x).map(|i| i as i64).unwrap_or(-2)).unwrap_or(-1);
+    match Message::deserialize(b.clone()) {
+        Ok(Message::HandshakeChallenge(c)) => format!("Ch({})", name(&Some(c.challenge))),
+        Ok(Message::HandshakeResponse(r)) => {
+            // which observed challenge the signature is over is part of the message's meaning
+            let over = sim.chals.iter().position(|c| verify(c, &r.signature, &r.public_key)).map(|i| i as i64).unwrap_or(-1);
+            format!("Re({},{},over{},v{})", crate::seams::key_name(&r.public_key), name(&Some(r.challenge)), over, r.core_version.minor)
+        }
+        Ok(m) => format!("tag{}", m.get_type_value()),
+        Err(_) => "bad".into(),
+    }
+}
+
+/// the observed messages in an order that depends on the state only (responses first, then by
+/// meaning), not on the order in which this history happened to observe them: `Replay(t, k)`
+/// names the k-th of these, so that equal states have equally named futures
+pub fn observed_canon(sim: &Sim) -> Vec<Vec<u8>> {
+    let mut v: Vec<(bool, String, Vec<u8>)> = sim.observed.iter().map(|b| {
+        let k = msg_kind(sim, b);
+        (k.starts_with("Ch("), k, b.clone())
+    }).collect();
+    v.sort();
+    v.dedup_by(|a, b| a.1 == b.1);
+    v.into_iter().map(|x| x.2).collect()
 }
 
 pub fn digest(sim: &Sim) -> Hash {
@@ -382,18 +424,7 @@ pub fn digest(sim: &Sim) -> Hash {
     let st: Vec<_> = s.iter().map(|p| (p.0, p.1.clone(), p.2.map(|k| crate::seams::key_name(&k)), name(&p.3))).collect();
     let ct: Vec<_> = c.iter().map(|p| (p.0, p.1.clone(), p.2.map(|k| crate::seams::key_name(&k)), name(&p.3))).collect();
     let at: Vec<_> = a.iter().map(|(k, i)| (crate::seams::key_name(k), *i)).collect();
-    let kind = |b: &Vec<u8>| -> String {
-        match Message::deserialize(b.clone()) {
-            Ok(Message::HandshakeChallenge(c)) => format!("Ch({})", name(&Some(c.challenge))),
-            Ok(Message::HandshakeResponse(r)) => {
-                // which observed challenge the signature is over is part of the message's meaning
-                let over = sim.chals.iter().position(|c| verify(c, &r.signature, &r.public_key)).map(|i| i as i64).unwrap_or(-1);
-                format!("Re({},{},over{},v{})", crate::seams::key_name(&r.public_key), name(&Some(r.challenge)), over, r.core_version.minor)
-            }
-            Ok(m) => format!("tag{}", m.get_type_value()),
-            Err(_) => "bad".into(),
-        }
-    };
+    let kind = |b: &Vec<u8>| -> String { msg_kind(sim, b) };
     let q1: Vec<_> = sim.to_c.iter().map(kind).collect();
     let q2: Vec<_> = sim.to_s.iter().map(kind).collect();
     let ob: BTreeSet<_> = sim.observed.iter().map(kind).collect();
@@ -459,9 +490,26 @@ pub fn main(tier: Tier, _replay: Option<String>) -> i32 {
     let map_seeds: Vec<u64> = if tier.thorough { vec![0, 1, 2, 3] } else { vec![0, 1] };
     let mut all_seen: BTreeSet<Hash> = BTreeSet::new();
     for map_seed in map_seeds.iter().cloned() {
-    let mut seen: BTreeSet<Hash> = BTreeSet::new();
-    let mut frontier: Vec<Vec<Act>> = vec![vec![]];
-    let mut level = 0;
+    // two searches per seed: from the start, and from the state in which the honest handshake
+    // between C and S has completed (three deliveries), so that what happens after a completed
+    // session (tear-down, re-dial, another key) lies within the bound
+    for (si, prefix) in [vec![], vec![Act::DeliverToC, Act::DeliverToS, Act::DeliverToC]].into_iter().enumerate() {
+    let mut seen: crate::audit::MergeAudit<Vec<Act>> = crate::audit::MergeAudit::new();
+    if !prefix.is_empty() {
+        saito_core::core::verif_hooks::set_map_seed(map_seed);
+        match replay(&prefix, &mut rep.child()) {
+            Some(s) => {
+                let (st, _, ct) = tables(&s);
+                if !st.iter().any(|p| p.1 == "Connected") || !ct.iter().any(|p| p.1 == "Connected") {
+                    rep.machinery("C17: the honest-handshake prefix does not leave C and S connected".into());
+                }
+            }
+            None => rep.machinery("C17: the honest-handshake prefix cannot be replayed".into()),
+        }
+    }
+    let depth = prefix.len() + if prefix.is_empty() { depth } else { depth - 1 };
+    let mut frontier: Vec<Vec<Act>> = vec![prefix.clone()];
+    let mut level = prefix.len();
     while level < depth && !frontier.is_empty() {
         level += 1;
         let results = par_map(&frontier, workers(), |_, h| {
@@ -487,12 +535,12 @@ pub fn main(tier: Tier, _replay: Option<String>) -> i32 {
         for (r, out) in results {
             rep.merge(r);
             for (h, d) in out {
-                if seen.insert(d) {
+                if seen.see(d, &h) {
                     next.push(h);
                 }
             }
         }
-        rep.outcome_n(&format!("level-{}-new-states", level), next.len() as u64);
+        rep.outcome_n(&format!("search{}-level-{}-new-states", si, level), next.len() as u64);
         if level < depth && next.len() > 15_000 {
             rep.exhaustive = false;
             rep.extra.insert("frontier_cap".into(), json!({"level": level, "states": next.len(), "kept": 15_000}));
@@ -501,7 +549,27 @@ pub fn main(tier: Tier, _replay: Option<String>) -> i32 {
         frontier = next;
     }
     rep.states += seen.len() as u64;
-    all_seen.extend(seen);
+    // canonicalisation audit: merged histories agree with their representative one step on
+    // (action names and digests use the renamed challenges, so they are comparable)
+    {
+        let quiet = Report::new("C17", tier.clone(), "model_checking");
+        let th = tier.thorough;
+        seen.audit(if tier.thorough { 2000 } else { 200 }, &format!("handshake-bfs-seed{}-search{}", map_seed, si), |h: &Vec<Act>| {
+            saito_core::core::verif_hooks::set_map_seed(map_seed);
+            let Some(s0) = replay(h, &mut quiet.child()) else { return vec![("replay-failed".to_string(), None)] };
+            let acts = enabled(&s0, th);
+            drop(s0);
+            acts.into_iter()
+                .map(|a| {
+                    let mut hh = h.clone();
+                    hh.push(a);
+                    (format!("{:?}", a), replay(&hh, &mut quiet.child()).map(|s| digest(&s)))
+                })
+                .collect()
+        }, &mut rep);
+    }
+    all_seen.extend(seen.rep_of.keys().cloned());
+    }
     }
     rep.extra.insert("peer_map_seeds".into(), json!(map_seeds));
     rep.distinct = all_seen.iter().map(|h| hex::encode(&h[0..8])).collect();
